@@ -153,7 +153,18 @@ def gen_root(rng, name):
         e_long = -((ncol // 2) * long_inc)                        # straddles the prime meridian, node on lon = 0
     if edge < 0.14 and rng.random() < 0.5:
         s_lat = -((nrow // 2) * lat_inc)                          # and the equator
-    k = rng.random() if edge >= 0.14 else 1.0
+    if 0.14 <= edge < 0.24:
+        # an extent line exactly on the equator / the prime meridian (a stored value of exactly 0.0)
+        which = rng.choice(['s', 'n', 'e', 'w', 'sn-e', 'sw'])
+        if 's' in which:
+            s_lat = 0
+        elif 'n' in which:
+            s_lat = -(nrow - 1) * lat_inc
+        if 'e' in which:
+            e_long = 0
+        elif 'w' in which:
+            e_long = -(ncol - 1) * long_inc
+    k = rng.random() if not edge < 0.24 else 1.0
     if k < 0.2:           # sub-arc-second extents (dyadic)
         s_lat += rng.choice([500, 250, 125])
         e_long += rng.choice([500, 250, 125])
